@@ -129,7 +129,8 @@ def _build(d):
         if isinstance(key, str) and d.pick(4) == 0:
             key = key.swapcase()
         return {'k': 'VLOOKUP', 'table': table, 'key': key,
-                'col': d.int(1, ncols + 1)}
+                'col': d.int(1, ncols + 1) if d.pick(6) else d.choice(
+                    [0, -1, ncols + 1, ncols + 2])}
     n = d.int(1, 8)
     if d.chance(1, 6):
         n = d.choice([9, 10, 11, 29, 30, 100, 253, 254])
@@ -349,7 +350,7 @@ def judge(case):
             lit(key), num_to_col(ncols), len(table), ci)
         o = lib.eval_formula(f, _cells(cols), addr='Sheet1!Z1')[0]
         res.nontrivial = row is not None and (ci > 2 or table.index(row) > 0)
-        if ci > ncols:
+        if ci > ncols or ci < 1:
             if o[0] != 'E':
                 res.fail('VLOOKUP:column-outside-table', 'an error value', o,
                          f)
